@@ -5,6 +5,7 @@ mod convert;
 mod decode;
 mod dispatch;
 mod gradual;
+mod modsrep;
 mod scoregen;
 mod settings;
 mod util;
@@ -23,6 +24,7 @@ fn main() {
         "decode-record" => decode::record_main(rest),
         "dispatch-replay" => dispatch::main(rest),
         "builders-replay" => builders::main(rest),
+        "mods-replay" => modsrep::main(rest),
         "convert-replay" => convert::replay_main(rest),
         "convert-record" => convert::record_main(rest),
         "decode-dump" => {
